@@ -69,6 +69,8 @@ THsDlv == /\ E.k = "HsDlv"
 TSend == /\ E.k = "Send"
          /\ LET d == E.d  pl == HexToBytes(E.hex) IN
             /\ CanSend(d) /\ (d = "s2c" /\ sent[d] = <<>> => pl = <<>>)
+            \* the same packet value handed to the sender again (Resend): it is what was sent as number `again`
+            /\ ("again" \in DOMAIN E /\ E.again > 0 => E.again <= Len(sent[d]) /\ pl = sent[d][E.again])
             /\ sent'  = [sent  EXCEPT ![d] = Append(@, pl)]
             /\ units' = [units EXCEPT ![d] = Append(@, FrameLen(Len(pl)))]
             /\ txoff' = [txoff EXCEPT ![d] = @ + FrameLen(Len(pl))]
@@ -113,10 +115,15 @@ TDead == /\ E.k = "Dead"
 
 \* the receiving API's user looks again at a packet it was handed earlier (the very object, not a copy):
 \* it must still hold the payload that was delivered, i.e. the one that was sent
+\* (side = "tx": the sender's user looks again at a packet value it handed to Send: sending must not have altered it)
 TRecheck == /\ E.k = "Recheck"
-            /\ E.idx >= 1 /\ E.idx <= Len(delivered[E.d])
-            /\ HexToBytes(E.sha) = Sha256(delivered[E.d][E.idx])
+            /\ IF "side" \in DOMAIN E /\ E.side = "tx"
+                 THEN E.idx >= 1 /\ E.idx <= Len(sent[E.d]) /\ HexToBytes(E.sha) = Sha256(sent[E.d][E.idx])
+                 ELSE E.idx >= 1 /\ E.idx <= Len(delivered[E.d]) /\ HexToBytes(E.sha) = Sha256(delivered[E.d][E.idx])
             /\ UNCHANGED <<hs, cp, sp, wire, buf, txoff, rxoff, sent, delivered, dead, eof, got, units, hit>> /\ Same
+
+\* time passed (possibly beyond the deadline of the context the connection was dialled under): not a fault
+TWait == E.k = "Wait" /\ TimePasses /\ Same
 
 \* end of the connection: the reported totals are the specification's and nothing deliverable is left
 TQuiesce == /\ E.k = "Quiesce"
@@ -129,7 +136,7 @@ TraceInit == /\ l \in Starts /\ seg = l
              /\ AInit /\ hsdmg = FALSE
 TraceNext == /\ l <= N
              /\ (l # seg => Trace[l].k # "Reset")
-             /\ (TReset \/ THs \/ TSeg \/ THsDlv \/ TSend \/ THdr \/ TCorrupt \/ TTrunc \/ TDlv \/ TAbsorb \/ TDead \/ TRecheck \/ TQuiesce)
+             /\ (TReset \/ THs \/ TSeg \/ THsDlv \/ TSend \/ THdr \/ TCorrupt \/ TTrunc \/ TDlv \/ TAbsorb \/ TDead \/ TRecheck \/ TWait \/ TQuiesce)
              /\ Good'
              /\ Consume
 TraceSpec == TraceInit /\ [][TraceNext]_tvars
